@@ -42,7 +42,7 @@ def is_rejected_delete(c):
     return op["op"] == "delete" and op["kind"] not in ("wipe", "tail", "head")
 
 
-def replay_and_judge(run, cases, crash, prefixes, shards=8):
+def replay_and_judge(run, cases, crash, prefixes, shards=None):
     """replay on the real Store, evaluate traces with StoreTrace.tla, fold FAIL records whose
     predicate belongs to this property into violations."""
     pid = run.pid
@@ -51,6 +51,8 @@ def replay_and_judge(run, cases, crash, prefixes, shards=8):
     vlib.go_build_test("storeh", binp)
     for i, c in enumerate(cases):
         c["id"] = i
+    if shards is None:
+        shards = 8 if run.tier == "quick" else 16
     shards = max(1, min(shards, len(cases)))
 
     def one(si):
@@ -75,7 +77,7 @@ def replay_and_judge(run, cases, crash, prefixes, shards=8):
         fails, tv = [], None
         if nev:
             tv = vlib.tlc(pid, "tv_%d" % si, "StoreTrace", "StoreTrace.cfg", workers=1, env_extra={"TRACE": tp},
-                          export_key="FAIL", heap="3g", timeout=3000)
+                          export_key="FAIL", heap="3g" if run.tier == "quick" else "7g", timeout=6000)
             fails = tv.exported
         return part, recs, crashinfo, nev, fails, tv
 
@@ -168,7 +170,7 @@ def family(run, prefixes, faults, crash, variants=None):
             run.add_tlc("Store.tla N=%d B=%d MaxOps=%d ctx=%s faults=%s crashes=%s" % (n_mc, b, ops_mc, ctx, faults, crash), res)
     # 2. transition-cover export (crash-free behaviours; the harness enumerates crash prefixes itself)
     cases = []
-    n_ex, ops_ex = (3, 4) if quick else (3, 6)
+    n_ex, ops_ex = (3, 4) if quick else (4, 5)
     for b in (1, 2, 3):
         for ctx in (False, True):
             res = run_tlc_cfg(run, "ex_b%d_%s" % (b, "ctx" if ctx else "plain"),
@@ -178,7 +180,7 @@ def family(run, prefixes, faults, crash, variants=None):
             cases.extend(res.exported)
     total_edges = len(cases)
     keep = []
-    frac_rej = 0.12 if quick else 1.0
+    frac_rej = 0.12 if quick else 0.25
     frac_other = 1.0
     if crash and quick:
         frac_other, frac_rej = 0.5, 0.03
